@@ -1,27 +1,116 @@
 (** C27 — MMU auto-allocation never aliases physical memory.  Property theorems only. *)
 From Akita Require Import Lib.Base C26.Model C26.Proofs C26.Proofs2 C26.Proofs3 C26.Proofs4 C26.Proofs5.
-From Akita Require Import C27.Model C27.Proofs C27.Proofs2.
+From Akita Require Import C27.Model C27.Proofs C27.Proofs2 C27.Proofs3.
 Local Open Scope N_scope.
-
-(** A uniform pre-populated table: a consistent page table (every table reachable through the
-    PageTable API is, theorem c26_invariant) of the MMU's page size in which every page is a
-    frame: PageSize = 2^log2, PAddr and VAddr multiples of it.  Pages may share frames. *)
-Definition uniform (log2 : N) (t : table) : Prop :=
-  wf_table t /\ tb_log2 t = log2 /\ log2 < 64 /\ forall x, In x (all_pages t) -> frame log2 x.
 
 Definition script_reqs (s : list (list req * nat)) : list req := flat_map fst s.
 
-Lemma uniform_minv log2 lat mx cap t qs : uniform log2 t -> minv qs (mmu_init log2 lat mx true cap t).
+Lemma script_reqs_in s : forall st q, In st s -> In q (fst st) -> In q (script_reqs s).
+Proof. intros st q H1 H2. unfold script_reqs. apply in_flat_map. exists st. tauto. Qed.
+
+(** ---- ARBITRARY initial tables.
+    The exact condition on the initial page table [t] and the MMU's page size 2^log2 under which
+    auto-allocation is alias-free, as a boolean predicate: [alias_okb log2 (all_pages t)] —
+    every frame (address that is a multiple of the page size) that meets the physical range
+    [PAddr, PAddr+PageSize) of a page of the table is itself the PAddr of some page of the table.
+    This is what the ReverseLookup probe of allocatePhysicalPage needs: it skips a frame exactly
+    when some page has that PAddr.  Pages of any size, at any address, shared by any number of
+    processes are allowed as long as the frames they touch are "claimed" in this sense (a frame-
+    sized page at an aligned address claims its own frame; a 2 MB page needs each of its 512
+    frames to be the PAddr of some page; an unaligned page needs the frames it straddles claimed). *)
+Definition general_ok (log2 : N) (t : table) : Prop :=
+  wf_table t /\ tb_log2 t = log2 /\ log2 < 64 /\ alias_okb log2 (all_pages t) = true.
+
+(** the Prop form used by the invariant *)
+Definition general_pre (log2 : N) (t : table) : Prop :=
+  wf_table t /\ tb_log2 t = log2 /\ log2 < 64 /\ alias_ok log2 t.
+
+Lemma general_ok_pre log2 t : general_ok log2 t -> general_pre log2 t.
+Proof. intros [W [L [Hl H]]]. split; [exact W|split; [exact L|split; [exact Hl|apply alias_okb_sound; assumption]]]. Qed.
+
+Lemma general_minv log2 lat mx cap t qs : general_pre log2 t -> minv (inpages t) qs (mmu_init log2 lat mx true cap t).
 Proof.
   intros [W [L [Hl F]]]. constructor; cbn [mmu_init m_log2 m_alloc m_tab m_auto m_out m_in m_walks]; try (intros ? []); [|reflexivity].
   constructor; try assumption.
-  - intros y Hy. apply F. apply all_pages_inpages; assumption.
+  - intros a [].
   - intros a [].
   - intros a q [].
+  - intros q Hq. right. exact Hq.
 Qed.
 
-Lemma script_reqs_in s : forall st q, In st s -> In q (fst st) -> In q (script_reqs s).
-Proof. intros st q H1 H2. unfold script_reqs. apply in_flat_map. exists st. tauto. Qed.
+(** No alias, for every initial table satisfying the condition, every configuration, every
+    tick script (any interleaving of walks of any number of processes, several walks of one page
+    in flight, any back-pressure) and every iteration oracle.  In every state reached:
+    the run never panics; every auto-allocated page is a frame; no auto-allocated page overlaps
+    the physical range of any other page of the table, pre-inserted or auto-allocated; two pages
+    with distinct (PID, VPage) whose physical ranges overlap are both pre-inserted (they
+    overlapped in the initial table already — shared frames stay shared, nothing new is aliased);
+    every pre-inserted mapping is unchanged; and the condition still holds (it is inductive). *)
+Theorem c27_no_alias_general : forall o log2 lat mx cap t0 script oc m obs,
+  valid_oracle o -> general_ok log2 t0 ->
+  env_run o (mmu_init log2 lat mx true cap t0) script = (oc, m, obs) ->
+  (oc = Ok \/ oc = Hang) /\
+  (forall a, In a (m_alloc m) -> pg_size a = 2 ^ log2 /\ pg_paddr a mod 2 ^ log2 = 0) /\
+  (forall a q, In a (m_alloc m) -> In q (all_pages (m_tab m)) -> ~ key_eq a q -> disjoint a q) /\
+  (forall x y, In x (all_pages (m_tab m)) -> In y (all_pages (m_tab m)) -> ~ key_eq x y -> ~ disjoint x y ->
+     In x (all_pages t0) /\ In y (all_pages t0)) /\
+  ext t0 (m_tab m) /\
+  alias_ok log2 (m_tab m).
+Proof.
+  intros o log2 lat mx cap t0 script oc m obs V U R. apply general_ok_pre in U. pose proof U as [W0 _].
+  destruct (env_run_spec (inpages t0) o (script_reqs script) V script _ _ _ _ (general_minv log2 lat mx cap t0 _ U)
+              (script_reqs_in script) R) as [A [B [C [D _]]]].
+  cbn [mmu_init m_tab m_log2] in C, D. pose proof (mi_t _ _ _ B) as T. rewrite D in T.
+  pose proof (ti_wf _ _ _ _ T) as W.
+  split; [exact A|split; [apply (ti_aframe _ _ _ _ T)|split; [|split; [|split; [exact C|apply (ti_cover _ _ _ _ T)]]]]].
+  - intros a q Ha Hq Hk. apply (all_pages_inpages _ q W) in Hq. apply (ti_disj _ _ _ _ T a q Ha Hq Hk).
+  - intros x y Hx Hy Hk Hov. apply (all_pages_inpages _ x W) in Hx. apply (all_pages_inpages _ y W) in Hy.
+    destruct (ti_origin _ _ _ _ T x Hx) as [Ax|Px].
+    { exfalso. apply Hov. apply (ti_disj _ _ _ _ T x y Ax Hy Hk). }
+    destruct (ti_origin _ _ _ _ T y Hy) as [Ay|Py].
+    { exfalso. apply Hov. assert (Hk' : ~ key_eq y x) by (intros [K1 K2]; apply Hk; split; congruence).
+      destruct (ti_disj _ _ _ _ T y x Ay Hx Hk') as [D1|D1]; [right; exact D1|left; exact D1]. }
+    split; apply (all_pages_inpages _ _ W0); assumption.
+Qed.
+Print Assumptions c27_no_alias_general.
+
+(** Exactly one mapping per (process, virtual page), for the same initial tables. *)
+Theorem c27_one_mapping_general : forall o log2 lat mx cap t0 script oc m obs,
+  valid_oracle o -> general_ok log2 t0 ->
+  env_run o (mmu_init log2 lat mx true cap t0) script = (oc, m, obs) ->
+  (oc = Ok \/ oc = Hang) /\
+  (forall ob r, In ob obs -> In r (to_rsps ob) -> rsp_ok log2 (m_tab m) (script_reqs script) r) /\
+  ext t0 (m_tab m) /\
+  (forall a, In a (m_alloc m) -> abs (m_tab m) (pg_pid a) (pg_vaddr a) = Some a) /\
+  (forall a1 a2, In a1 (m_alloc m) -> In a2 (m_alloc m) -> key_eq a1 a2 -> a1 = a2).
+Proof.
+  intros o log2 lat mx cap t0 script oc m obs V U R. apply general_ok_pre in U.
+  destruct (env_run_spec (inpages t0) o (script_reqs script) V script _ _ _ _ (general_minv log2 lat mx cap t0 _ U)
+              (script_reqs_in script) R) as [A [B [C [D E]]]].
+  cbn [mmu_init m_tab m_log2] in C, D, E.
+  pose proof (mi_t _ _ _ B) as T. rewrite D in T.
+  assert (Hb : forall a, In a (m_alloc m) -> abs (m_tab m) (pg_pid a) (pg_vaddr a) = Some a).
+  { intros a Ha. apply inpages_abs; [apply (ti_wf _ _ _ _ T)|apply (ti_alloc_in _ _ _ _ T a Ha)]. }
+  split; [exact A|split; [exact E|split; [exact C|split; [exact Hb|]]]].
+  intros a1 a2 H1 H2 [K1 K2]. pose proof (Hb a1 H1) as B1. pose proof (Hb a2 H2) as B2.
+  rewrite K1, K2 in B1. congruence.
+Qed.
+Print Assumptions c27_one_mapping_general.
+
+(** ---- Uniform tables (the special case of the first version of these theorems): a consistent
+    page table of the MMU's page size in which every page is a frame: PageSize = 2^log2, PAddr
+    and VAddr multiples of it.  Pages may share frames. *)
+Definition uniform (log2 : N) (t : table) : Prop :=
+  wf_table t /\ tb_log2 t = log2 /\ log2 < 64 /\ forall x, In x (all_pages t) -> frame log2 x.
+
+Lemma uniform_pre log2 t : uniform log2 t -> general_pre log2 t.
+Proof.
+  intros [W [L [Hl F]]]. split; [exact W|split; [exact L|split; [exact Hl|]]].
+  apply frames_alias_ok; [exact Hl|]. intros x Hx. apply F. apply all_pages_inpages; assumption.
+Qed.
+
+Lemma uniform_minv log2 lat mx cap t qs : uniform log2 t -> minv (inpages t) qs (mmu_init log2 lat mx true cap t).
+Proof. intro U. apply general_minv. apply uniform_pre. exact U. Qed.
 
 (** Exactly one mapping per (process, virtual page), for every uniform table, configuration,
     tick script (any request stream, incl. several walks of one page in flight, any draining
@@ -41,12 +130,12 @@ Theorem c27_one_mapping : forall o log2 lat mx cap t0 script oc m obs,
   (forall a1 a2, In a1 (m_alloc m) -> In a2 (m_alloc m) -> key_eq a1 a2 -> a1 = a2).
 Proof.
   intros o log2 lat mx cap t0 script oc m obs V U R.
-  destruct (env_run_spec o (script_reqs script) V script _ _ _ _ (uniform_minv log2 lat mx cap t0 _ U)
+  destruct (env_run_spec (inpages t0) o (script_reqs script) V script _ _ _ _ (uniform_minv log2 lat mx cap t0 _ U)
               (script_reqs_in script) R) as [A [B [C [D E]]]].
   cbn [mmu_init m_tab m_log2] in C, D, E.
-  pose proof (mi_t _ _ B) as T. rewrite D in T.
+  pose proof (mi_t _ _ _ B) as T. rewrite D in T.
   assert (Hb : forall a, In a (m_alloc m) -> abs (m_tab m) (pg_pid a) (pg_vaddr a) = Some a).
-  { intros a Ha. apply inpages_abs; [apply (ti_wf _ _ _ T)|apply (ti_alloc_in _ _ _ T a Ha)]. }
+  { intros a Ha. apply inpages_abs; [apply (ti_wf _ _ _ _ T)|apply (ti_alloc_in _ _ _ _ T a Ha)]. }
   split; [exact A|split; [exact E|split; [exact C|split; [exact Hb|]]]].
   intros a1 a2 H1 H2 [K1 K2]. pose proof (Hb a1 H1) as B1. pose proof (Hb a2 H2) as B2.
   rewrite K1, K2 in B1. congruence.
@@ -62,18 +151,10 @@ Theorem c27_no_overlap : forall o log2 lat mx cap t0 script oc m obs,
     pg_paddr a + pg_size a <= pg_paddr q \/ pg_paddr q + pg_size q <= pg_paddr a.
 Proof.
   intros o log2 lat mx cap t0 script oc m obs V U R a q Ha Hq Hk.
-  destruct (env_run_spec o (script_reqs script) V script _ _ _ _ (uniform_minv log2 lat mx cap t0 _ U)
+  destruct (env_run_spec (inpages t0) o (script_reqs script) V script _ _ _ _ (uniform_minv log2 lat mx cap t0 _ U)
               (script_reqs_in script) R) as [_ [B [_ [D _]]]].
-  cbn [mmu_init m_log2] in D. pose proof (mi_t _ _ B) as T. rewrite D in T.
-  apply (all_pages_inpages _ q (ti_wf _ _ _ T)) in Hq.
-  pose proof (ti_distinct _ _ _ T a q Ha Hq Hk) as Hne.
-  destruct (ti_frames _ _ _ T a (ti_alloc_in _ _ _ T a Ha)) as [Sa [Pa _]].
-  destruct (ti_frames _ _ _ T q Hq) as [Sq [Pq _]].
-  rewrite Sa, Sq.
-  assert (0 < 2 ^ log2) as Hpos by (apply N.neq_0_lt_0, N.pow_nonzero; lia).
-  apply N.mod_divide in Pa; [|lia]. apply N.mod_divide in Pq; [|lia].
-  destruct Pa as [ka Ea]. destruct Pq as [kq Eq]. rewrite Ea, Eq in *.
-  assert (ka <> kq) by congruence. nia.
+  cbn [mmu_init m_log2] in D. pose proof (mi_t _ _ _ B) as T. rewrite D in T.
+  apply (all_pages_inpages _ q (ti_wf _ _ _ _ T)) in Hq. apply (ti_disj _ _ _ _ T a q Ha Hq Hk).
 Qed.
 Print Assumptions c27_no_overlap.
 
@@ -117,23 +198,91 @@ Proof.
 Qed.
 Print Assumptions c27_mixed_sizes_refuted.
 
+Lemma alias_ok_all_pages log2 t : wf_table t -> alias_ok log2 t ->
+  forall q, In q (all_pages t) -> forall c, c mod 2 ^ log2 = 0 -> meets log2 c q ->
+  exists q', In q' (all_pages t) /\ pg_paddr q' = c.
+Proof.
+  intros W H q Hq c Hc Hm. apply (all_pages_inpages t q W) in Hq.
+  destruct (H q Hq c Hc Hm) as [q' [Hq' Hp]]. exists q'. split; [apply (all_pages_inpages t q' W); exact Hq'|exact Hp].
+Qed.
+
+Lemma bad_wf p : wf_table (bad_table p).
+Proof. apply (run_wf [(id_oracle, OInsert _)] (tb_new 12) (wf_new 12)). repeat constructor. apply id_oracle_valid. Qed.
+
+(** The witnesses of F-C27-1 violate exactly the condition: the one pre-inserted page meets a
+    frame that no page claims (frame 0 for the page at 0x800; frame 0x1000 for the 2 MB page
+    at 0), so [alias_okb] is false — and the same page made a claimed frame (or its missing
+    frames claimed by further pages) satisfies it. *)
+Theorem c27_refuted_witness_violates_condition :
+  alias_okb 12 (all_pages (bad_table (mk_page 1 2048 65536 4096 0 1))) = false /\
+  alias_okb 12 (all_pages (bad_table (mk_page 2 0 2097152 2097152 0 3))) = false /\
+  ~ alias_ok 12 (bad_table (mk_page 1 2048 65536 4096 0 1)) /\
+  ~ alias_ok 12 (bad_table (mk_page 2 0 2097152 2097152 0 3)) /\
+  (* repaired neighbours of the two witnesses *)
+  alias_okb 12 (all_pages (bad_table (mk_page 1 4096 65536 4096 0 1))) = true /\
+  alias_okb 12 [mk_page 1 2048 65536 4096 0 1; mk_page 5 0 0 4096 0 1; mk_page 5 4096 4096 4096 0 1] = true.
+Proof.
+  split; [vm_compute; reflexivity|]. split; [vm_compute; reflexivity|].
+  split; [|split; [|split; vm_compute; reflexivity]].
+  - intro H. destruct (alias_ok_all_pages 12 _ (bad_wf _) H (mk_page 1 2048 65536 4096 0 1) ltac:(vm_compute; auto) 0 eq_refl
+                         ltac:(unfold meets; cbn; lia)) as [q' [Hq' Hp]].
+    vm_compute in Hq'. destruct Hq' as [<-|[]]. discriminate Hp.
+  - intro H. destruct (alias_ok_all_pages 12 _ (bad_wf _) H (mk_page 2 0 2097152 2097152 0 3) ltac:(vm_compute; auto) 4096 eq_refl
+                         ltac:(unfold meets; cbn; lia)) as [q' [Hq' Hp]].
+    vm_compute in Hq'. destruct Hq' as [<-|[]]. discriminate Hp.
+Qed.
+Print Assumptions c27_refuted_witness_violates_condition.
+
+(** The condition is necessary, one allocation at a time: whenever it fails — some frame [c]
+    meets a page [q] of the table and no page has PAddr [c] — an MMU whose allocation cursor
+    stands at [c] hands out exactly [c] for the next miss, and the page it creates overlaps [q].
+    (That the cursor reaches [c] needs enough earlier misses; this is shown for the two
+    witnesses of c27_mixed_sizes_refuted, not in general.) *)
+Theorem c27_condition_necessary_step : forall o log2 t q c fuel pid va dev,
+  wf_table t -> valid_oracle o -> log2 < 64 ->
+  In q (all_pages t) -> c mod 2 ^ log2 = 0 -> meets log2 c q -> (forall q', In q' (all_pages t) -> pg_paddr q' <> c) ->
+  alloc (S fuel) o log2 t c = Some (c, w64 (c + psize log2)) /\
+  ~ disjoint (default_page log2 pid va dev c) q.
+Proof.
+  intros o log2 t q c fuel pid va dev W V Hl Hq Hc Hm Free.
+  apply (alias_ok_necessary_step o log2 t q c fuel pid va dev W V Hl); try assumption.
+  - apply (all_pages_inpages t q W). exact Hq.
+  - intros q' Hq'. apply Free. apply (all_pages_inpages t q' W). exact Hq'.
+Qed.
+Print Assumptions c27_condition_necessary_step.
+
 (** Link to the implementation: when the correspondence check succeeds on a case with auto
-    allocation on and a uniform pre-populated table, every response OBSERVED on the real MMU's
-    Top port answers a scripted request (its ID, its requester) with the page that the model's
-    final table — compared with the real table's checkpoint by the same check — binds to that
-    request's (process, virtual page). *)
+    allocation on whose initial table the harness classified as satisfying the condition (the
+    check compares that classification with [alias_okb]), every response OBSERVED on the real
+    MMU's Top port answers a scripted request (its ID, its requester) with the page that the
+    model's final table — compared with the real table's checkpoint by the same check — binds to
+    that request's (process, virtual page), and the model's final table is alias-free. *)
 From Akita Require Import C26.Exec C27.Exec C27.Link.
+
+Lemma pre_table_wf log2 pre : wf_table (pre_table log2 pre) /\ tb_log2 (pre_table log2 pre) = log2.
+Proof.
+  unfold pre_table. apply (run_wf _ (tb_new log2) (wf_new log2)).
+  apply Forall_forall. intros [o x] Hx. apply in_map_iff in Hx. destruct Hx as [p [Hp _]]. inversion Hp; subst.
+  split; [apply id_oracle_valid|exact I].
+Qed.
+
 Theorem c27_model_agreement_implies_property : forall c,
-  c_auto c = true -> uniform (c_log2 c) (pre_table (c_log2 c) (c_pre c)) -> check_case c = true ->
+  c_auto c = true -> c_log2 c < 64 -> c_cond c = true -> check_case c = true ->
   exists oc m obs,
     env_run id_oracle (mmu_init (c_log2 c) (c_lat c) (c_max c) true (c_cap c) (pre_table (c_log2 c) (c_pre c))) (c_script c) = (oc, m, obs) /\
-    forall ob r, In ob (o_ticks c) -> In r (to_rsps ob) -> rsp_ok (c_log2 c) (m_tab m) (script_reqs (c_script c)) r.
+    (forall ob r, In ob (o_ticks c) -> In r (to_rsps ob) -> rsp_ok (c_log2 c) (m_tab m) (script_reqs (c_script c)) r) /\
+    (forall a q, In a (m_alloc m) -> In q (all_pages (m_tab m)) -> ~ key_eq a q -> Proofs.disjoint a q).
 Proof.
-  intros c Au U H. pose proof (check_case_obs c H) as Hobs. cbv zeta in Hobs. rewrite Au in Hobs.
+  intros c Au Hl Hc H. pose proof (check_case_obs c H) as Hobs. cbv zeta in Hobs. rewrite Au in Hobs.
+  assert (U : general_ok (c_log2 c) (pre_table (c_log2 c) (c_pre c))).
+  { destruct (pre_table_wf (c_log2 c) (c_pre c)) as [W L]. split; [exact W|split; [exact L|split; [exact Hl|]]].
+    rewrite (check_case_cond c H). exact Hc. }
   destruct (env_run id_oracle (mmu_init (c_log2 c) (c_lat c) (c_max c) true (c_cap c) (pre_table (c_log2 c) (c_pre c))) (c_script c))
     as [[oc m] obs] eqn:E.
   cbn [snd] in Hobs. subst obs. exists oc, m, (o_ticks c). split; [reflexivity|].
-  destruct (c27_one_mapping id_oracle _ _ _ _ _ _ _ _ _ id_oracle_valid U E) as [_ [R _]]. exact R.
+  destruct (c27_one_mapping_general id_oracle _ _ _ _ _ _ _ _ _ id_oracle_valid U E) as [_ [R _]].
+  destruct (c27_no_alias_general id_oracle _ _ _ _ _ _ _ _ _ id_oracle_valid U E) as [_ [_ [D _]]].
+  split; [exact R|exact D].
 Qed.
 Print Assumptions c27_model_agreement_implies_property.
 
@@ -159,5 +308,31 @@ Proof.
   - split; [|split; [reflexivity|split; [reflexivity|]]].
     + apply (run_wf _ (tb_new 12) (wf_new 12)). repeat constructor; apply id_oracle_valid.
     + vm_compute. intros x [<-|[<-|[<-|[]]]]; repeat split.
+  - vm_compute. repeat split.
+Qed.
+
+(** Non-vacuity of the general theorems: a NON-uniform initial table satisfying the condition —
+    a two-frame page at 0x4000 shared by processes 1 and 2 whose second frame 0x5000 is claimed
+    by a page of process 3, an unaligned page at 0x800 (frames 0 and 0x1000 claimed by pages of
+    process 4, one of them empty), and walks of three processes interleaved. *)
+Definition mixed_pre : list page :=
+  [mk_page 1 16384 0 8192 0 1; mk_page 2 16384 65536 8192 0 1; mk_page 3 20480 4096 4096 0 1;
+   mk_page 7 2048 12288 4096 0 1; mk_page 4 0 0 4096 0 1; mk_page 4 4096 4096 0 0 0].
+Definition mixed_table : table := fst (run (tb_new 12) (map (fun p => (id_oracle, OInsert p)) mixed_pre)).
+Definition mixed_script : list (list req * nat) :=
+  [([mk_req 10 0 1 28672 0; mk_req 11 1 2 40 0], 0%nat); ([mk_req 12 0 3 28688 0; mk_req 13 1 1 28700 1], 1%nat);
+   ([mk_req 14 2 7 5 7], 1%nat); ([], 2%nat); ([], 2%nat); ([], 2%nat); ([], 2%nat); ([], 2%nat); ([], 2%nat); ([], 2%nat); ([], 2%nat)].
+
+Example c27_nonvacuous_general :
+  general_ok 12 mixed_table /\ ~ uniform 12 mixed_table /\
+  match env_run id_oracle (mmu_init 12 1 4 true 2 mixed_table) mixed_script with
+  | (oc, m, obs) =>
+      oc = Ok /\ map pg_paddr (m_alloc m) = [8192; 12288; 24576; 28672] /\ length (flat_map to_rsps obs) = 4%nat
+  end.
+Proof.
+  split; [|split].
+  - split; [|split; [reflexivity|split; [reflexivity|vm_compute; reflexivity]]].
+    apply (run_wf _ (tb_new 12) (wf_new 12)). repeat constructor; apply id_oracle_valid.
+  - intros [_ [_ [_ F]]]. destruct (F (mk_page 7 2048 12288 4096 0 1)) as [_ [P _]]; [vm_compute; auto 10|]. vm_compute in P. discriminate.
   - vm_compute. repeat split.
 Qed.
